@@ -288,7 +288,29 @@ func (c *Ctx) EnumOf(t types.Type) *Enum {
 		}
 	}
 	if len(e.Consts) < 2 {
-		return nil
+		// fallback: the constants are declared untyped (`const ( A = iota; B ... )`) and only
+		// acquire the named type where they are used (analyzer/ast.TypeKind). Collect the
+		// package's untyped integer constants that occur where the expression has type n.
+		e.Consts = nil
+		if p := c.byPath[n.Obj().Pkg().Path()]; p != nil {
+			seen := map[*types.Const]bool{}
+			for id, obj := range p.TypesInfo.Uses {
+				k, ok := obj.(*types.Const)
+				if !ok || k.Pkg() != n.Obj().Pkg() || seen[k] {
+					continue
+				}
+				if bt, ok := k.Type().(*types.Basic); !ok || bt.Info()&types.IsUntyped == 0 {
+					continue
+				}
+				if tv, ok := p.TypesInfo.Types[id]; ok && tv.Type != nil && types.Identical(tv.Type, n) {
+					seen[k] = true
+					e.Consts = append(e.Consts, k)
+				}
+			}
+		}
+		if len(e.Consts) < 2 {
+			return nil
+		}
 	}
 	sort.Slice(e.Consts, func(i, j int) bool { return e.Consts[i].Pos() < e.Consts[j].Pos() })
 	for _, k := range e.Consts {
